@@ -49,7 +49,7 @@ def short_fn(fn):
 def run_govc(pid, tier, outdir, extra=None):
     timeout = 10 if tier == "quick" else 60
     cmd = [os.path.join(ROOT, "bin", "govc"), "-repo", REPO, "-verif", ROOT, "-props", pid,
-           "-out", outdir, "-timeout", str(timeout), "-j", "8"]
+           "-out", outdir, "-timeout", str(timeout), "-j", "12"]
     if extra:
         cmd += extra
     env = dict(os.environ)
